@@ -20,6 +20,7 @@ package mcp
 //@ global-invariant len(supportedProtocolVersions) == 5 && supportedProtocolVersions[0] == protocolVersion20260728
 //@      && supportedProtocolVersions[1] == protocolVersion20251125 && supportedProtocolVersions[2] == protocolVersion20250618
 //@      && supportedProtocolVersions[3] == protocolVersion20250326 && supportedProtocolVersions[4] == protocolVersion20241105
+//@ global-invariant forall j int :: {absElem(supportedProtocolVersions, off(supportedProtocolVersions) + j)} 0 <= j && j < len(supportedProtocolVersions) ==> sdkSupports(supportedProtocolVersions[j])
 
 // initialize path: the result is always an SDK-supported pre-2026 version, and the client's own when that is one.
 //@ func negotiatedVersion [C07]
@@ -50,6 +51,33 @@ package mcp
 //@   nopanic
 //@   ensures @sdk-and-stateless result <==> (sdkSupports(version) && (legacy(version) || t.Stateless))
 
+// What a transport says about a version is a function of the transport and the version (interface contract: assumed
+// for user-supplied transports; the two transports of this module are verified against their own contracts above).
+//@ fun transportServes(t ProtocolVersionSupporter, v string) bool
+//@ func (ProtocolVersionSupporter).SupportsProtocolVersion
+//@   abstract
+//@   params t, version
+//@   pure
+//@   ensures result == transportServes(t, version)
+
+// filterSupportedVersions: the versions a server offers on a transport (server/discover, and the list negotiation
+// picks from) are exactly the SDK's versions the transport says it serves, newest first - whatever subset that is
+// (a transport may serve only the newest revision, or a set with holes); a transport that does not answer the
+// question gets all of them.
+//@ func filterSupportedVersions [C07]
+//@   nopanic
+//@   track SupportsProtocolVersion as ask
+//@   modifies allElems("string")
+//@   ensures @only-versions-of-the-sdk forall j int :: {absElem(result, off(result) + j)} 0 <= j && j < len(result) ==> sdkSupports(result[j])
+//@   ensures @every-version-is-asked-about-once calls(ask) == 0 || calls(ask) == 5
+//@   ensures @all-versions-without-an-opinion calls(ask) == 0 ==> len(result) == 5 && (forall j int :: {absElem(result, off(result) + j)} 0 <= j && j < 5 ==> result[j] == supportedProtocolVersions[j])
+//@   ensures @only-served-versions forall j int :: {absElem(result, off(result) + j)} 0 <= j && j < len(result) && calls(ask) == 5 ==> transportServes(local(pvs), result[j])
+//@   ensures @no-served-version-is-dropped calls(ask) == 5 ==> len(result) == (transportServes(local(pvs), protocolVersion20260728) ? 1 : 0) + (transportServes(local(pvs), protocolVersion20251125) ? 1 : 0)
+//@        + (transportServes(local(pvs), protocolVersion20250618) ? 1 : 0) + (transportServes(local(pvs), protocolVersion20250326) ? 1 : 0) + (transportServes(local(pvs), protocolVersion20241105) ? 1 : 0)
+//@   loop 1: invariant @only-served-versions forall j int :: {absElem(local(out), off(local(out)) + j)} 0 <= j && j < len(local(out)) ==> transportServes(local(pvs), local(out)[j])
+//@   loop 1: invariant @no-served-version-is-dropped len(local(out)) == ($idx > 0 && transportServes(local(pvs), protocolVersion20260728) ? 1 : 0) + ($idx > 1 && transportServes(local(pvs), protocolVersion20251125) ? 1 : 0)
+//@        + ($idx > 2 && transportServes(local(pvs), protocolVersion20250618) ? 1 : 0) + ($idx > 3 && transportServes(local(pvs), protocolVersion20250326) ? 1 : 0) + ($idx > 4 && transportServes(local(pvs), protocolVersion20241105) ? 1 : 0)
+//@   loop 1: invariant @only-versions-of-the-sdk calls(ask) == $idx && len(local(out)) <= $idx && (forall j int :: {absElem(local(out), off(local(out)) + j)} 0 <= j && j < len(local(out)) ==> sdkSupports(local(out)[j]))
 // The package initializer establishes the package invariants (checked at the assignment) and the engine's
 // frame check shows the variables named in them are never assigned again, mutated or aliased.
 //@ func init [C07, C20, C01, C04]
